@@ -744,6 +744,55 @@ fn sc_c08(seed: u64) -> Vec<Scenario> {
     }]
 }
 
+/// Gh0st requests with every value of the two bytes where a client's zlib header sits
+/// (thorough: all 65 536; quick: 0x78 xx and xx 0x9c), over UDP and TCP.
+fn sc_c18(seed: u64, thorough: bool) -> Vec<Scenario> {
+    let mut rng = Rng::new(derive(seed, "directed-c18", 0));
+    let key = [rng.u64(), rng.u64()];
+    let c = cfg(Build::Release, LoggerKind::None, 0, key);
+    let mut steps = Vec::new();
+    let mut pairs: Vec<(u8, u8)> = Vec::new();
+    if thorough {
+        for a in 0..=255u8 {
+            for b in 0..=255u8 {
+                pairs.push((a, b));
+            }
+        }
+    } else {
+        for b in 0..=255u8 {
+            pairs.push((0x78, b));
+            pairs.push((b, 0x9c));
+        }
+    }
+    let fl = Flow::v4(4444, 8000);
+    let fl6 = Flow::v6(4444, 8000);
+    for (k, (a, b)) in pairs.iter().enumerate() {
+        let mut m = b"Gh0st".to_vec();
+        m.extend_from_slice(&24u32.to_le_bytes());
+        m.extend_from_slice(&1u32.to_le_bytes());
+        m.extend_from_slice(&[*a, *b, 0x63, 0, 0, 0, 1, 0, 1]);
+        steps.push(Step::Frame(if k % 2 == 0 { fl.udp(&m) } else { fl6.udp(&m) }));
+    }
+    // the same over TCP for the quick set
+    let mut sport = 5000u16;
+    for b in (0..=255u8).step_by(if thorough { 1 } else { 5 }) {
+        sport += 1;
+        let f = Flow::v4(sport, 8000);
+        let ck = f.cookie(&key);
+        let mut m = b"Gh0st".to_vec();
+        m.extend_from_slice(&[24, 0, 0, 0, 1, 0, 0, 0, 0x78, b, 0x63, 0, 0, 0, 1, 0, 1]);
+        steps.push(Step::Frame(f.seg(0, 0, F_SYN, &[])));
+        steps.push(Step::Frame(f.seg(1, ck.wrapping_add(1), F_PSH | F_ACK, &m)));
+    }
+    vec![Scenario {
+        name: "ghost-zlib-header-bytes".into(),
+        cfg: c,
+        start_ms: START,
+        steps,
+        samples: 0,
+    }]
+}
+
 pub fn scenarios(prop: &str, tier: &str, seed: u64) -> Vec<Scenario> {
     let thorough = tier == "thorough";
     match prop {
@@ -763,6 +812,7 @@ pub fn scenarios(prop: &str, tier: &str, seed: u64) -> Vec<Scenario> {
         "C11" => sc_c11(seed, thorough),
         "C08" => sc_c08(seed),
         "C15" => sc_c15(seed, thorough),
+        "C18" => sc_c18(seed, thorough),
         "C10" | "C16" => sc_c10(seed, thorough),
         "C12" => sc_c05(seed, false),
         "C20" => {
